@@ -1,9 +1,9 @@
-"""C06 - a wake-up is never lost to a concurrent pause or interruption (process part; awaitables: module Awaitables)."""
+"""C06 - a wake-up is never lost to a concurrent pause or interruption (resume calls and awaited futures/children)."""
 from .. import core_check, core_model
 from . import core_cfg as C
 
 PID = 'C06'
-INV = ['C06_NoLostWakeup', 'C06_ResumeValue']
+INV = ['C06_NoLostWakeup', 'C06_ResumeValue', 'C06_NoLostCompletion']
 PROP = []
 
 
@@ -13,11 +13,16 @@ def run(tier, seed):
     xd = 'MCResumeVals == {"v1", "v2", "NULL"}\n'
     wait = ['P03', 'P05', 'P06', 'P10', 'P13', 'P21', 'P22']
     if tier == 'quick':
-        mc = [dict(name='C06_env', progs=C.fam(wait), plans=[[]], alphabet=alpha, k=4, invariants=INV, overrides=ov, extra_defs=xd)]
-        rp = [dict(name='C06_env', progs=C.fam(['P03', 'P05', 'P10']), plans=[[]], alphabet=alpha, k=3, overrides=ov, extra_defs=xd)]
+        mc = [dict(name='C06_env', progs=C.fam(wait), plans=[[]], alphabet=alpha, k=4, invariants=INV, overrides=ov, extra_defs=xd),
+              dict(name='C06_awaitables', progs=C.fam(['W1', 'W3', 'W4']), plans=[[]], alphabet=['complete', 'pause', 'play', 'kill'], k=4, invariants=INV)]
+        rp = [dict(name='C06_env', progs=C.fam(['P03', 'P05', 'P10']), plans=[[]], alphabet=alpha, k=3, overrides=ov, extra_defs=xd),
+              dict(name='C06_awaitables', progs=C.fam(['W1', 'W3']), plans=[[]], alphabet=['complete', 'pause', 'play', 'kill'], k=3)]
     else:
-        mc = [dict(name='C06_env', progs=C.fam(wait), plans=[[]], alphabet=alpha, k=6, invariants=INV, overrides=ov, extra_defs=xd)]
-        rp = [dict(name='C06_env', progs=C.fam(wait), plans=[[]], alphabet=alpha, k=4, overrides=ov, extra_defs=xd)]
+        mc = [dict(name='C06_env', progs=C.fam(wait), plans=[[]], alphabet=alpha, k=6, invariants=INV, overrides=ov, extra_defs=xd),
+              dict(name='C06_awaitables', progs=C.fam(['W1', 'W2', 'W3', 'W4', 'W5']), plans=[[]], alphabet=['complete', 'pause', 'play', 'kill'], k=5, invariants=INV)]
+        rp = [dict(name='C06_env', progs=C.fam(wait), plans=[[]], alphabet=alpha, k=4, overrides=ov, extra_defs=xd),
+              dict(name='C06_awaitables', progs=C.fam(['W1', 'W2', 'W3', 'W5']), plans=[[]], alphabet=['complete', 'pause', 'play', 'kill'], k=4),
+              dict(name='C06_children', progs=C.fam(['W1', 'W3']), plans=[[]], alphabet=['complete', 'pause', 'play'], k=4, run_kw={'children': True})]
     return core_check.run_check(
         PID, tier, seed, mc, rp,
         level_text='TLC exhaustive + replay of every behaviour of the dumped state graphs into the real Process',
